@@ -500,3 +500,16 @@ SPECS = {
         },
     ],
 }
+
+
+# --- round 3d: C19, the line readers (harness/py2lean_c19.py: spec keys `translator` + `ext`).  `c19.regex`: the compiled
+# regex whose `finditer(<text>)` becomes the extra parameter of that name (list of group spans); `c19.text`: the
+# parameters that are texts; `poly_text`: a str is a list over a type variable (the code only slices / measures it).
+_C19 = [
+    {'module': 'boltons.strutils', 'qualname': 'iter_splitlines', 'lean_name': 'iter_splitlines',
+     'params': {'text': 'List α', 're_spans': 'List (Int × Int)'}, 'tparams': ['α'],
+     'kind': 'generator', 'result': 'List α', 'tie_theorem': 'C19.src_iter_splitlines_eq_model',
+     'translator': 'py2lean_c19', 'ext': 'py2lean_c19', 'gen_file': 'strutils_lines',
+     'c19': {'text': ['text'], 'regex': {'_line_ending_re': 're_spans'}, 'group': 1, 'poly_text': True}},
+]
+SPECS['C19'] = _C19
